@@ -401,6 +401,9 @@ func runC13Seq(rc *RunCtx, bottom string) {
 				ok = c.doOp(tx, tm, true, ro)
 			}
 			if !ok {
+				// (never leave a transaction to the garbage collector: the raft
+				// backend's clean-up of a leaked transaction would run outside the bubble)
+				tx.Rollback()
 				return
 			}
 			if tp.Pick(4) == 3 {
